@@ -37,6 +37,8 @@ Decides:
                         adjacent groups the window is the run of present items (shared with C19).
  V version configured  a `version` annotation of the derive API ends up as .version(..) on the OptionParser of the same level, for `options` and for
                         `command` alike (shared with C17).
+ B adjacent scope an adjacent command that succeeded gives the caller's scope back (a help flag right of its block stays visible; shared with C05);
+                        the progress of a failed attempt is len() before minus len() after on the attempt's own state.
 Does not decide: which of several failing fields is reported for a given line."""
 import re
 from core import *
